@@ -189,7 +189,7 @@ func acceptSpec(accepts []string) (json, nd, bad bool) {
 
 func TestCheck(t *testing.T) {
 	r := vp.New("C19", "exploration",
-		"result lists: every list of 0..N results over 27 result kinds ({context ID nil/empty/binary} x {metadata nil/empty/binary} x {provider with 0..2 addresses}), written through rwriter (+ProviderResponseWriter) by an in-memory HTTP server and read back by find/client.Find / FindBatch (JSON-preferring server) and raw NDJSON/JSON requests; keys: multihashes of 5 hash functions in base58 and hex, CIDv0/v1 strings; Accept headers: every sequence of <=2 header values over 9 values, both server preferences; 12 request path shapes; apierror: every status 400..599 x 5 messages through EncodeError/DecodeError and FromResponse. Non-trivial: lists with >=1 result, negotiation/path cases other than the plain JSON request.",
+		"result lists: every list of 0..N results over 27 result kinds ({context ID nil/empty/binary} x {metadata nil/empty/binary} x {provider with 0..2 addresses}), written through rwriter (+ProviderResponseWriter) by an in-memory HTTP server and read back by find/client.Find / FindBatch (JSON-preferring server) and raw NDJSON/JSON requests; keys: multihashes of 5 hash functions in base58 and hex, CIDv0/v1 strings; Accept headers: every sequence of <=2 header values over 9 values, both server preferences; 12 request path shapes; apierror: every status 400..599 x 5 messages through EncodeError/DecodeError and FromResponse, bare and inside 5 shapes of error chains (wrapped once / twice, joined first / second, API error wrapping a plain chain). Non-trivial: lists with >=1 result, negotiation/path cases other than the plain JSON request.",
 		"the find client sends no Accept header, so client read-back is checked against a server created with WithPreferJson(true); the strict server is checked with raw requests",
 		"nil and empty context ID / metadata are equal (the JSON encoding omits both)",
 		"a key that is both valid base58 and valid hex is only required not to decode to a different valid multihash",
@@ -606,6 +606,31 @@ func TestCheck(t *testing.T) {
 				r.Violation("apierror:from-response", key, fmt.Sprintf("FromResponse(%d, %q) = %v", status, msg, fr), nil)
 			}
 			r.Outcome("apierror-ok")
+			// the same API error inside an error chain (Go's error model: an error
+			// that wraps an API error is one, errors.As finds it): the status
+			// must survive, the message is the one of the whole chain
+			shapes := []struct {
+				name string
+				err  error
+			}{
+				{"wrapped", fmt.Errorf("find failed: %w", orig)},
+				{"wrapped-twice", fmt.Errorf("outer: %w", fmt.Errorf("inner: %w", orig))},
+				{"joined-first", errors.Join(orig, errors.New("other"))},
+				{"joined-second", errors.Join(errors.New("other"), orig)},
+				{"api-error-wrapping-plain", apierror.New(fmt.Errorf("ctx: %w", errors.New(msg)), status)},
+			}
+			for _, sh := range shapes {
+				r.Eval(key+"|"+sh.name, true)
+				var back error
+				if pn, pm := vp.Guard(func() { back = apierror.DecodeError(apierror.EncodeError(sh.err)) }); pn {
+					r.Violation("apierror:panic", key+"|"+sh.name, firstLine(pm), nil)
+					continue
+				}
+				var ae *apierror.Error
+				if !errors.As(back, &ae) || ae.Status() != status || ae.Error() != sh.err.Error() {
+					r.Violation("apierror:encode-decode:"+sh.name, key+"|"+sh.name, fmt.Sprintf("an error chain holding API error (%d, %q), message %q, came back as %v (%T)", status, msg, sh.err.Error(), back, back), nil)
+				}
+			}
 		}
 	}
 	t.Logf("violations: %d", r.Violations())
